@@ -1,4 +1,11 @@
-// L2: Uint byte / hex encoding (src/uint/encoding.rs, C16)
+// L2: Uint byte / hex encoding (src/uint/encoding.rs) -- C16
+// body (proved, every LIMBS): Uint::from_be_slice / from_le_slice (value == bytes_val_be/le of the input), uint_to_be_bytes / uint_to_le_bytes
+//   (value of the output == v(), plus the positional form: byte k == floor(v / 256^(n-1-k)) mod 256 resp. 256^k), decode_nibble (exhaustive,
+//   bit_vector), decode_hex_byte, Uint::from_be_hex / from_le_hex. Lemmas: lemma_be_roundtrip / lemma_le_roundtrip (both directions),
+//   lemma_bv_{be,le}_{inj,digit,ext,bound,word}.
+// assumed: the four `external_body` shims word_{from,to}_{be,le}_bytes (= u64::{from,to}_{be,le}_bytes, positional semantics); see the note there.
+// The hex decoders panic on a non-hex character (`assert!(err == 0)`): `all_hex` is a precondition; that every non-hex byte is reported is the
+//   second postcondition of decode_hex_byte.
 use vstd::prelude::*;
 use vstd::arithmetic::power::*;
 use vstd::arithmetic::power2::*;
